@@ -6,7 +6,7 @@
 (* retained (spec -> impl).                                                   *)
 EXTENDS FastCheck, TLC, Json
 
-CONSTANTS MaxRefs, Emit, ModRefs
+CONSTANTS MaxRefs, Emit, ModRefs, NsAlias, AliasMods
 
 Others(m) == Mods \ {m}
 ExportChoices == {"-"} \cup Names \cup {"default"}
@@ -15,7 +15,7 @@ ExportedOk(e) == \A m \in Mods : \A d1, d2 \in Decls : (d1 # d2 /\ e[m][d1] # "-
 RefChoices(d) == { S \in SUBSET ((Decls \ {d}) \cup AliasIds) : Cardinality(S) <= MaxRefs }
 
 \* per-module choices, filtered locally so that TLC never enumerates the product of ill-formed modules
-AliasChoices(m) == {<<>>} \cup { <<t, n>> : t \in Mods \ {m}, n \in Names \cup {"default"} }
+AliasChoices(m) == IF m \notin AliasMods THEN {<<>>} ELSE {<<>>} \cup { <<t, n>> : t \in Mods \ {m}, n \in Names \cup {"default"} \cup (IF NsAlias THEN {"*"} ELSE {}) }
 StarChoices(m) == {<<>>} \cup { <<t>> : t \in Mods \ {m} }
 ModRefChoices(m) == IF ModRefs THEN { S \in SUBSET (Mods \ {m}) : Cardinality(S) <= 1 } ELSE {{}}
 LocalOk(m, c) ==
@@ -29,7 +29,7 @@ Dummy == [ exported |-> [d \in Decls |-> "-"], refs |-> [d \in Decls |-> {}], mo
 MC(m) == IF m \in Mods THEN ModChoices(m) ELSE {Dummy}
 \* an import alias names something its target really exports (otherwise the program does not type check)
 GlobalOk(p) == \A m \in Mods : \A a \in AliasIds : p.alias[m][a] # <<>> =>
-                  p.alias[m][a][2] \in ({ p.exported[p.alias[m][a][1]][d] : d \in Decls } \ {"-"})
+                  (p.alias[m][a][2] = "*" \/ p.alias[m][a][2] \in ({ p.exported[p.alias[m][a][1]][d] : d \in Decls } \ {"-"}))
 Init ==
   /\ \E ce \in MC("e"), ca \in MC("a"), cb \in MC("b") :
        LET all == [e |-> ce, a |-> ca, b |-> cb] IN
